@@ -5,6 +5,12 @@ matrix symbols or the function atoms ``inv(x)``, ``sqrt(x)``, ``conj(x)`` over a
 canonical sub-term.  The identity is the empty product.  ``inv`` of a single product
 distributes (reversed); ``inv(inv(x)) = x``.  No commutation is ever assumed, not even
 for diagonal matrices.
+
+Extraction (second half of this file): ``MatrixModel`` interprets the matrix-building functions of
+the package on model values of SymPy's matrix API - either these terms (generic size) or explicit
+matrices (sa/dense.py, concrete size) - through the model executor (sa/pyexec.py / sa/rules.py), so
+the rules read what a function computes, not how it is spelled.  ``NCEval`` is the generic-size
+front end.
 """
 
 from __future__ import annotations
@@ -161,248 +167,1224 @@ def nc_func(name: str, x: NC) -> NC:
     return NC.make([(RF.const(1), ((name, x.key()),))])
 
 
+def inverted_symbols(v: NC, _seen: set | None = None) -> set:
+    """Names of the matrix symbols whose bare inverse ``inv(S)`` occurs somewhere in the term."""
+    seen = _seen if _seen is not None else set()
+    out: set = set()
+    for _, factors in v.items():
+        for f in factors:
+            if f[0] == "sym" or f in seen:
+                continue
+            seen.add(f)
+            inner = _REGISTRY.get(f[1])
+            if inner is None:
+                continue
+            if f[0] == "inv" and len(inner.items()) == 1 and len(inner.items()[0][1]) == 1 and inner.items()[0][1][0][0] == "sym":
+                out.add(inner.items()[0][1][0][1])
+            out |= inverted_symbols(inner, seen)
+    return out
+
+
 # ---------------------------------------------------------------------------- extraction
+#
+# The matrix-building functions of the package (``_create_matrices``, ``formulate``, their helpers) are
+# not pattern-matched: they are INTERPRETED, statement by statement, by the model executor of
+# sa/rules.py (``ModelExec``: assignments, unpacking, branches, loops, comprehensions, closures, lambdas,
+# helper functions and methods of the package, keyword / positional / ``*`` / ``**`` arguments, walrus,
+# try/except ...) on MODEL VALUES of SymPy's matrix API that this file supplies.  Nothing of the package
+# or of SymPy is imported or run.  Two value domains:
+#
+# * ``nc``    - a size parameter is a symbolic dimension ``n``; ``create_symbol_matrix("K", n, n)`` is the
+#               non-commutative symbol ``K``; ``sp.eye`` the identity; ``*``, ``@``, ``+``, ``-``,
+#               ``.inv()``, ``**-1``, ``sp.sqrt``, ``sp.conjugate``, ``.T``, ``.H`` ... build the normal
+#               form above, so the result holds for EVERY number of channels.  ``range(n)`` is one generic
+#               index: ``sp.zeros(n, n)`` filled at ``[i, i]`` with ``Symbol(f"rho{i}")`` (or ``sp.diag`` of
+#               such a family) is the diagonal symbol ``rho``; ``Matrix(n, n, lambda i, j: X[i, j] * A[i, i]
+#               / B[j, j])`` with diagonal A, B is ``A X B^-1``.  A test ``n == 2`` on a dimension is False
+#               on the generic path and recorded in ``special`` (the caller decides that size densely).
+# * ``dense`` - sizes are concrete integers, matrices are explicit grids of rational functions
+#               (sa/dense.py ``Mat``), scalars are ``RF``; ``x.xreplace({...})`` / ``.subs`` are RECORDED on
+#               the value (``substitutions``), not performed; calls of the functions named in ``opaque``
+#               (``parametrization``) are not entered: they become atoms whose bound arguments are kept in
+#               ``params``.  This decides closed forms for one size entry by entry, gives counter-models
+#               for a generic term that is not in the accepted list, and shows what ``formulate``
+#               substitutes for which matrix element.
+#
+# Whatever has no model (an unknown SymPy function, arithmetic on a dimension, the truth value of a
+# symbolic term, ...) is a ModelError: the caller cannot decide (exit 2), never a verdict.
 
-MATRIX_SOURCES = {
-    "ampform.sympy::create_symbol_matrix": lambda call: _const_arg(call, 0, "name"),
-    "ampform.dynamics.kmatrix::_create_rho_matrix": lambda call: "rho",
-}
+GENERIC = "#"
 
 
-def _const_arg(call: ast.Call, pos: int, kw: str) -> str:
-    for k in call.keywords:
-        if k.arg == kw and isinstance(k.value, ast.Constant):
-            return str(k.value.value)
-    if len(call.args) > pos and isinstance(call.args[pos], ast.Constant):
-        return str(call.args[pos].value)
-    raise NCError(f"matrix name is not a literal in `{unparse(call)}`")
+class _Attrs(dict):
+    """Attribute table of a model value; ``lazy`` entries are computed when read (``x.T``, ``x.rows``)."""
+
+    def __init__(self, lazy: dict | None = None) -> None:
+        super().__init__()
+        self.lazy = dict(lazy or {})
+
+    def __contains__(self, k) -> bool:
+        return dict.__contains__(self, k) or k in self.lazy
+
+    def __getitem__(self, k):
+        if dict.__contains__(self, k):
+            return dict.__getitem__(self, k)
+        if k in self.lazy:
+            return self.lazy[k]()
+        raise KeyError(k)
+
+    def get(self, k, default=None):
+        return self[k] if k in self else default
 
 
-def _is_diagonal_builder(tree: Tree, qual: str) -> bool:
-    """zeros(n, n) filled only at [i, i] (one index variable) and returned."""
-    fn = tree.funcs.get(qual)
-    if fn is None:
-        return False
-    stores = [n for n in ast.walk(fn.node) if isinstance(n, ast.Subscript) and isinstance(n.ctx, ast.Store)]
-    if not stores:
-        return False
-    for st in stores:
-        sl = st.slice
-        if not (isinstance(sl, ast.Tuple) and len(sl.elts) == 2 and all(isinstance(e, ast.Name) for e in sl.elts) and sl.elts[0].id == sl.elts[1].id):
+@dataclass
+class _Elem:
+    """nc domain: ``coeff * prod m[r, c]**sign`` of matrix elements at generic indices."""
+
+    coeff: RF
+    factors: tuple  # of (NC, row index object, column index object, sign)
+
+
+class _Builder:
+    """nc domain: ``sp.zeros(n, n)`` that is being filled by item assignment."""
+
+    def __init__(self, rows, cols) -> None:
+        self.rows, self.cols = rows, cols
+        self.entries: list = []
+
+
+def conj_rf(x: RF) -> RF:
+    """Complex conjugate of a scalar term: a ring homomorphism with conj(I) = -I, conj(conj(a)) = a; every
+    other atom a (symbols may be complex, roots have a branch cut) becomes the atom ("conj", a)."""
+
+    def atom(a) -> RF:
+        if a == "I":
+            return -RF.atom("I")
+        if isinstance(a, tuple) and len(a) == 2 and a[0] == "conj":
+            return RF.atom(a[1])
+        return RF.atom(("conj", a))
+
+    def poly(p) -> RF:
+        out = RF.const(0)
+        for mono, c in p.t.items():
+            term = RF.const(c)
+            for a, e in mono:
+                term = term * atom(a) ** e
+            out = out + term
+        return out
+
+    x = x.normalized()
+    return poly(x.n) / poly(x.d)
+
+
+class MatrixModel:
+    """Model execution of matrix-building package functions (see the notes above)."""
+
+    SYMBOL_MATRIX = "ampform.sympy::create_symbol_matrix"
+
+    def __init__(self, tree: Tree, mode: str = "nc", assume: dict | None = None, opaque: tuple = ("parametrization",)) -> None:
+        try:  # the interpreter of ordinary Python over model worlds (generators, with, memoised functions, stdlib models)
+            from .pyexec import PyExec as ModelExec
+        except ImportError:  # pragma: no cover - the smaller interpreter it grew out of
+            from .rules import ModelExec
+
+        if mode not in {"nc", "dense"}:
+            raise ValueError(mode)
+        self.tree, self.mode = tree, mode
+        self.assume = dict(assume or {})  # (dimension label, size) -> outcome of the test `n == size`
+        self.special: dict = {}  # size tests on a symbolic dimension that were met
+        self.diagonal: set = set()  # nc factors known to be diagonal matrices
+        self.opaque = set(opaque)
+        self.params: dict = {}  # atom -> (qualname, {parameter: model value}) of a call that was not entered
+        self.calls: dict = {}  # atom -> (label, args, kwargs) of a call of an opaque callable
+        self.symbols: dict = {}  # atom -> (name, assumptions)
+        self.constructed: list = []  # (kind, name, assumptions) of every Symbol / IndexedBase the interpreted code builds
+        self.symbol_matrices: dict = {}  # name -> value
+        self.mutations: list = []  # dense: item assignments into matrices (text)
+        self._unequal: set = set()  # pairs of generic indices that stand for different values
+        self._class_objects: dict = {}
+        self.ex = ModelExec(tree, externals=self._externals(), intercept=self._intercept)
+        for q, c in tree.classes.items():
+            ctor = self._record_ctor(c)
+            if ctor is not None:
+                self.ex.externals.setdefault(q, ctor)
+
+    # ------------------------------------------------------------------ entry points
+    def call(self, fn: FuncInfo, args: list | None = None, kwargs: dict | None = None):
+        from .rules import ModelError, ModelRaise
+
+        try:
+            return self.ex.call_function(fn, list(args or []), dict(kwargs or {}))
+        except ModelRaise as exc:
+            raise ModelError(f"{fn.qual}: the interpreted code raises {exc} for the model arguments") from None
+        except RecursionError:
+            raise ModelError(f"recursion too deep while interpreting {fn.qual}") from None
+        except (TypeError, ValueError, KeyError, IndexError, AttributeError) as exc:  # a gap of the interpreter must never look like a verdict
+            raise ModelError(f"the model interpreter failed inside {fn.qual}: {type(exc).__name__}: {exc}") from exc
+
+    def results(self, r) -> list:
+        """The returned value as a list of domain values (a tuple / list / named tuple is its elements)."""
+        from .rules import MObj
+
+        if isinstance(r, (tuple, list)):
+            return [self.value(x) for x in r]
+        if isinstance(r, MObj) and "__value__" not in r.attrs and "__iter__" in r.attrs:
+            return [self.value(x) for x in r.attrs["__iter__"]([], {})]
+        if isinstance(r, MObj) and "__value__" not in r.attrs and "__fields__" in r.attrs:
+            return [self.value(r.attrs[n]) for n in r.attrs["__fields__"]]
+        if isinstance(r, dict):
+            return [self.value(x) for x in r.values()]
+        return [self.value(r)]
+
+    def dim(self, label: str):
+        """A symbolic size (nc domain)."""
+        from .rules import MObj, ModelError
+
+        o = MObj(label, kinds={"dim"}, open=True)
+
+        def eq(a, k):
+            other = a[0]
+            if other is o:
+                return True
+            if isinstance(other, int) and not isinstance(other, bool):
+                self.special[(label, other)] = True
+                return bool(self.assume.get((label, other), False))
+            raise ModelError(f"comparison of the size `{label}` with {other!r} cannot be decided for a generic size")
+
+        def undecided(a, k):
+            raise ModelError(f"the truth value of the size `{label}` is not determined for a generic size")
+
+        def order(name, decided):
+            def run(a, k):
+                other = a[0]
+                if isinstance(other, int) and not isinstance(other, bool) and decided(other) is not None:
+                    return decided(other)  # a size is an integer >= 1
+                raise ModelError(f"`{label} {name} {other!r}` cannot be decided for a generic size")
+
+            return run
+
+        o.attrs.update({"__eq__": eq, "__bool__": undecided, "__key__": ("dim", label), "__str__": lambda a, k: f"<{label}>",
+                        "__lt__": order("<", lambda c: False if c <= 1 else None), "__le__": order("<=", lambda c: False if c <= 0 else None),
+                        "__gt__": order(">", lambda c: True if c <= 0 else None), "__ge__": order(">=", lambda c: True if c <= 1 else None)})
+        o.kinds |= {"int"}
+        return o
+
+    def class_object(self, cls_qual: str):
+        """The class object handed to a classmethod as ``cls``: its methods, looked up through the MRO."""
+        from .rules import MObj, _FuncRef
+
+        if cls_qual in self._class_objects:
+            return self._class_objects[cls_qual]
+        info = self.tree.cls(cls_qual)
+        o = self._class_objects[cls_qual] = MObj(f"class {info.name}", kinds={"class"}, open=False)
+        o.attrs["__key__"] = ("class", cls_qual)
+        o.attrs["__name__"] = info.name
+        ctor = self._record_ctor(info)
+        if ctor is not None:
+            o.attrs["__call__"] = ctor
+        for c in reversed(self.tree.mro(info)):
+            for name, m in c.methods.items():
+                decos = {unparse(d) for d in m.node.decorator_list}
+                if "staticmethod" in decos:
+                    o.attrs[name] = _FuncRef(m)
+                elif "classmethod" in decos:
+                    o.attrs[name] = (lambda m_: lambda a, k: self.ex.call_function(m_, [o, *a], k))(m)
+                else:
+                    o.attrs[name] = _FuncRef(m)  # a plain function looked up on the class: unbound
+        return o
+
+    def opaque_callable(self, label: str):
+        """A callable argument (a phase-space factor class): calling it gives an atom that records the arguments."""
+        from .rules import MObj
+
+        o = MObj(label, kinds={"callable", "class"}, open=False)
+
+        def call(a, k):
+            atom = ("call", label, tuple(self.key(x) for x in a), tuple(sorted((n, self.key(v)) for n, v in k.items())))
+            self.calls[atom] = (label, list(a), dict(k))
+            return self.wrap(RF.atom(atom))
+
+        o.attrs.update({"__call__": call, "__key__": ("callable", label), "__name__": label})
+        return o
+
+    # ------------------------------------------------------------------ values
+    def wrap(self, v, shape=None, subst: tuple = ()):
+        from .rules import MObj
+
+        kind = "scalar" if isinstance(v, (RF, _Elem)) else "matrix"
+        o = MObj(kind, kinds={kind, "sympy"}, open=True)
+        o.attrs = _Attrs(self._lazy(o))
+        o.attrs.update(self._methods(o))
+        o.attrs["__value__"] = v
+        o.attrs["__shape__"] = shape
+        o.attrs["__subst__"] = tuple(subst)
+        if isinstance(v, RF):
+            a = _single_atom(v)
+            if isinstance(a, tuple) and a and a[0] == "sym":
+                o.label = a[1]  # an f-string over a symbol prints its name
+                o.attrs["__str__"] = lambda a_, k_, name=a[1]: name
+                o.attrs["name"] = a[1]
+            o.kinds |= {"Expr", "Basic"}
+        else:
+            o.kinds |= {"MatrixBase", "Matrix", "MutableDenseMatrix", "DenseMatrix", "MutableMatrix", "MatrixCommon", "Basic"}
+        return o
+
+    def value(self, x):
+        from .rules import MObj, ModelError
+
+        if isinstance(x, MObj) and "__value__" in x.attrs:
+            v = x.attrs["__value__"]
+            return self._finalise(v) if isinstance(v, _Builder) else v
+        if isinstance(x, bool):
+            raise ModelError("a bool used as a number")
+        if isinstance(x, (int, Fraction)):
+            return RF.const(x)
+        if isinstance(x, float):
+            return RF.const(Fraction(str(x)))
+        raise ModelError(f"{x!r} is not a matrix / scalar value of the model")
+
+    def key(self, x):
+        """A hashable description of a model value (for the argument tables)."""
+        from .rules import MObj, MRef
+
+        if isinstance(x, MObj):
+            if "__value__" in x.attrs:
+                v = self.value(x)
+                if isinstance(v, (RF, NC)):
+                    return v.key() if isinstance(v, NC) else ("rf", repr(v.normalized().key()))
+                return ("mat", id(x))
+            if "__key__" in x.attrs:
+                return x.attrs["__key__"]
+            return ("obj", x.label, id(x))
+        if isinstance(x, MRef):
+            return ("ref", x.name)
+        if isinstance(x, (tuple, list)):
+            return tuple(self.key(y) for y in x)
+        if isinstance(x, dict):
+            return tuple((self.key(k), self.key(v)) for k, v in x.items())
+        return x
+
+    def shape_of(self, x):
+        from .rules import MObj
+
+        if isinstance(x, MObj) and "__value__" in x.attrs:
+            v = x.attrs["__value__"]
+            if isinstance(v, _Builder):
+                return (v.rows, v.cols)
+            if self.mode == "dense" and not isinstance(v, (RF, NC, _Elem)):
+                return (v.n, v.m)
+            return x.attrs["__shape__"]
+        return None
+
+    def is_diagonal(self, v) -> bool:
+        if not isinstance(v, NC):
             return False
-    inits = [n for n in ast.walk(fn.node) if isinstance(n, ast.Call) and tree.resolve(fn.module, n.func, fn) == "sympy.zeros"]
-    return len(inits) == 1
-
-
-def _mul_div_factors(node: ast.AST, sign: int = 1) -> list[tuple[ast.AST, int]]:
-    if isinstance(node, ast.BinOp) and isinstance(node.op, ast.Mult):
-        return _mul_div_factors(node.left, sign) + _mul_div_factors(node.right, sign)
-    if isinstance(node, ast.BinOp) and isinstance(node.op, ast.Div):
-        return _mul_div_factors(node.left, sign) + _mul_div_factors(node.right, -sign)
-    return [(node, sign)]
-
-
-class NCEval:
-    def __init__(self, tree: Tree) -> None:
-        self.tree = tree
-        self.diagonal: set = set()
-
-    def is_diagonal(self, v: "NC") -> bool:
         items = v.items()
         if len(items) != 1:
             return False
         for f in items[0][1]:
             if f in self.diagonal:
                 continue
-            if f[0] in {"sqrt", "conj", "inv"}:
+            if f[0] in {"sqrt", "conj", "inv", "transpose", "adjoint"}:
                 inner = _REGISTRY.get(f[1])
                 if inner is not None and self.is_diagonal(inner):
                     continue
             return False
         return True
 
-    def elementwise(self, node: ast.Call, env, fn) -> "NC":
-        """sp.Matrix(n, n, lambda i, j: X[i, j] * A[i, i] / B[j, j] ...) with A, B diagonal
-        == A · X · B^-1  (a diagonal factor indexed by the row scales from the left, one indexed
-        by the column from the right)."""
-        lam = node.args[2]
-        if not (isinstance(lam, ast.Lambda) and len(lam.args.args) == 2 and unparse(node.args[0]) == unparse(node.args[1])):
-            raise NCError(f"element-wise matrix `{unparse(node)[:60]}` is not square / not a two-index lambda")
-        i, j = (a.arg for a in lam.args.args)
-        left, right, full = [], [], []
-        coeff = NC.eye()
-        for fac, sign in _mul_div_factors(lam.body):
-            if isinstance(fac, ast.Subscript) and isinstance(fac.value, ast.Name) and isinstance(fac.slice, ast.Tuple) and len(fac.slice.elts) == 2:
-                idx = tuple(e.id if isinstance(e, ast.Name) else None for e in fac.slice.elts)
-                m = self._nc(self.ev(fac.value, env, fn))
-                if idx == (i, j):
-                    if sign != 1:
-                        raise NCError("division by a full matrix element")
-                    full.append(m)
-                    continue
-                if idx in {(i, i), (j, j)}:
-                    if not self.is_diagonal(m):
-                        raise NCError(f"`{unparse(fac)}`: element [k, k] of a matrix that is not known to be diagonal")
-                    (left if idx == (i, i) else right).append(m if sign == 1 else m.inv())
-                    continue
-                raise NCError(f"element `{unparse(fac)}` is neither [{i}, {j}] nor a diagonal element")
-            v = self._nc(self.ev(fac, env, fn))
-            if any(f for _, f in v.items()):
-                raise NCError(f"factor `{unparse(fac)[:40]}` of an element-wise product is a matrix")
-            coeff = coeff * (v if sign == 1 else v.inv())
-        if len(full) != 1:
-            raise NCError(f"element-wise product with {len(full)} full-matrix factors")
-        out = coeff
-        for m in sorted(left, key=lambda x: repr(x.key())):
-            out = out * m
-        out = out * full[0]
-        for m in sorted(right, key=lambda x: repr(x.key())):
-            out = out * m
+    # ------------------------------------------------------------------ attributes and methods of a value
+    def _lazy(self, o) -> dict:
+        from .rules import ModelError
+
+        def dims(i):
+            def get():
+                sh = self.shape_of(o)
+                if sh is None or sh[i] is None:
+                    raise ModelError("the shape of this matrix term is not known")
+                return sh[i]
+
+            return get
+
+        def shape():
+            sh = self.shape_of(o)
+            if sh is None or None in sh:
+                raise ModelError("the shape of this matrix term is not known")
+            return tuple(sh)
+
+        def is_square():
+            r, c = shape()
+            return r is c or (isinstance(r, int) and isinstance(c, int) and r == c)
+
+        return {
+            "T": lambda: self.func("transpose", o), "H": lambda: self.func("adjoint", o), "C": lambda: self.func("conj", o),
+            "rows": dims(0), "cols": dims(1), "shape": shape, "is_square": is_square,
+            "is_Matrix": lambda: not isinstance(o.attrs["__value__"], (RF, _Elem)),
+        }
+
+    def _methods(self, o) -> dict:
+        from .rules import ModelError
+
+        def same(a, k):
+            return o
+
+        def undecided(a, k):
+            if not isinstance(o.attrs["__value__"], (RF, _Elem)):
+                return True  # a matrix with at least one element is true (len(m) > 0)
+            raise ModelError("the truth value of a symbolic term is not determined")
+
+        def inv(a, k):
+            return self.inverse(o)
+
+        def applyfunc(a, k):
+            return self.applyfunc(a[0], o)
+
+        def multiply(a, k):
+            return self.arith("*", o, a[0])
+
+        def dense_only(name):
+            def run(a, k):
+                v = self.value(o)
+                if self.mode != "dense" or isinstance(v, (RF, NC, _Elem)):
+                    raise ModelError(f"matrix method .{name}() has a model only for explicit matrices")
+                r = getattr(v, name)()
+                return self.wrap(r, subst=o.attrs["__subst__"])
+
+            return run
+
+        table = {
+            "__add__": lambda a, k: self.arith("+", o, a[0]), "__radd__": lambda a, k: self.arith("+", a[0], o),
+            "__sub__": lambda a, k: self.arith("-", o, a[0]), "__rsub__": lambda a, k: self.arith("-", a[0], o),
+            "__mul__": lambda a, k: self.arith("*", o, a[0]), "__rmul__": lambda a, k: self.arith("*", a[0], o),
+            "__matmul__": lambda a, k: self.arith("@", o, a[0]), "__rmatmul__": lambda a, k: self.arith("@", a[0], o),
+            "__truediv__": lambda a, k: self.arith("/", o, a[0]), "__rtruediv__": lambda a, k: self.arith("/", a[0], o),
+            "__pow__": lambda a, k: self.arith("**", o, a[0]),
+            "__neg__": lambda a, k: self.arith("*", -1, o),
+            "__bool__": undecided,
+            "__getitem__": lambda a, k: self.getitem(o, a[0]),
+            "__iter__": lambda a, k: self.elements(o), "__len__": lambda a, k: len(self.elements(o)),
+            "__setitem__": lambda a, k: self.setitem(o, a[0], a[1]),
+            "inv": inv, "inverse": inv, "inverse_ADJ": inv, "inverse_GE": inv, "inverse_LU": inv, "inverse_CH": inv, "inverse_LDL": inv, "inverse_QR": inv,
+            "doit": same, "simplify": same, "expand": same, "as_mutable": same, "as_immutable": same, "copy": same, "as_explicit": same, "evalf": None,
+            "conjugate": lambda a, k: self.func("conj", o), "transpose": lambda a, k: self.func("transpose", o), "adjoint": lambda a, k: self.func("adjoint", o),
+            "applyfunc": applyfunc, "multiply": multiply,
+            "xreplace": lambda a, k: self.substitute(o, a, k), "subs": lambda a, k: self.substitute(o, a, k),
+            "trace": dense_only("trace"), "det": dense_only("det"), "adjugate": dense_only("adjugate"),
+        }
+        return {n: f for n, f in table.items() if f is not None}
+
+    # ------------------------------------------------------------------ algebra
+    def _subst_of(self, x) -> tuple:
+        from .rules import MObj
+
+        return x.attrs["__subst__"] if isinstance(x, MObj) and "__subst__" in x.attrs else ()
+
+    def _merged_subst(self, a, b) -> tuple:
+        """Algebra on a value that carries recorded substitutions: sound only if the other operand holds none
+        of the substituted symbols (substitution is a homomorphism)."""
+        from .rules import ModelError
+
+        sa, sb = self._subst_of(a), self._subst_of(b)
+        if not sa and not sb:
+            return ()
+        for mine, other in ((sa, b), (sb, a)):
+            if mine and not self._subst_of(other):
+                keys = {k for k, _ in mine}
+                if keys & self._atoms(self.value(other)):
+                    raise ModelError("algebra between a substituted and an unsubstituted term that share symbols")
+        return (*sa, *[p for p in sb if p not in sa])
+
+    def _atoms(self, v) -> set:
+        if isinstance(v, RF):
+            return set(v.atoms())
+        if isinstance(v, NC):
+            return set()
+        if isinstance(v, _Elem):
+            return set(v.coeff.atoms())
+        out: set = set()
+        for r in v.rows:
+            for x in r:
+                out |= x.atoms()
         return out
 
-    def run(self, fn: FuncInfo, flags: dict[str, bool]) -> list:
-        """Evaluate a straight-line ``_create_matrices`` body; ``if <flag>:`` on a boolean
-        parameter is decided by ``flags``.  Returns the list of returned values."""
-        env: dict[str, object] = dict(flags)
-        for p in fn.params:
-            if p not in env and p not in {"self", "cls"}:
-                env[p] = ("dim", p)  # a size: only ever an argument of eye() / create_symbol_matrix() / helpers
-        return self._block(fn.node.body, env, fn)
+    def arith(self, op: str, a, b):
+        from .rules import ModelError
 
-    def _block(self, body, env, fn):
-        for st in body:
-            if isinstance(st, ast.Expr) and isinstance(st.value, ast.Constant):
-                continue
-            if isinstance(st, (ast.Assign, ast.AnnAssign)):
-                value = st.value
-                targets = st.targets if isinstance(st, ast.Assign) else [st.target]
-                v = self.ev(value, env, fn)
-                for t in targets:
-                    if isinstance(t, (ast.Tuple, ast.List)) and isinstance(v, list) and len(v) == len(t.elts) and all(isinstance(e, ast.Name) for e in t.elts):
-                        for e, x in zip(t.elts, v):
-                            env[e.id] = x
-                        continue
-                    if not isinstance(t, ast.Name) or isinstance(v, list):
-                        raise NCError(f"assignment target `{unparse(t)}`")
-                    env[t.id] = v
-                continue
-            if isinstance(st, ast.If):
-                test = st.test
-                negate = False
-                if isinstance(test, ast.UnaryOp) and isinstance(test.op, ast.Not):
-                    test, negate = test.operand, True
-                if isinstance(test, ast.Name) and isinstance(env.get(test.id), bool):
-                    cond = env[test.id] != negate
-                    r = self._block(st.body if cond else st.orelse, env, fn)
-                    if r is not None:
-                        return r
-                    continue
-                if unparse(st.test) in getattr(self, "assume", {}):
-                    r = self._block(st.body if self.assume[unparse(st.test)] else st.orelse, env, fn)
-                    if r is not None:
-                        return r
-                    continue
-                raise NCError(f"branch on `{unparse(st.test)}` is not a boolean parameter")
-            if isinstance(st, ast.Return):
-                if isinstance(st.value, ast.Tuple):
-                    return [self.ev(e, env, fn) for e in st.value.elts]
-                return [self.ev(st.value, env, fn)]
-            raise NCError(f"statement {type(st).__name__} outside the matrix-term grammar")
-        return None
+        va, vb = self.value(a), self.value(b)
+        subst = self._merged_subst(a, b)
+        sa, sb = self.shape_of(a), self.shape_of(b)
+        try:
+            v, shape = self._arith(op, va, vb, sa, sb)
+        except ZeroDivisionError:
+            raise ModelError(f"division by zero in the model of `{op}`") from None
+        return self.wrap(v, shape, subst)
 
-    def ev(self, node, env, fn):
-        if isinstance(node, ast.Name):
-            if node.id in env:
-                return env[node.id]
-            raise NCError(f"unbound `{node.id}`")
-        if isinstance(node, ast.Constant) and isinstance(node.value, (int, float)) and not isinstance(node.value, bool):
-            return NC.scalar(Fraction(str(node.value)))
-        if isinstance(node, ast.Attribute):
-            tgt = self.tree.resolve(fn.module, node, fn)
-            if tgt == "sympy.I":
-                return NC.scalar(RF.atom("I"))
-            if node.attr in {"rows", "cols"} and isinstance(node.value, ast.Name) and isinstance(env.get(node.value.id), NC):
-                return ("dim", node.value.id)  # only ever an argument of eye()/zeros()
-            if node.attr in {"T", "H"} and not (isinstance(node.value, ast.Name) and node.value.id not in env):
-                return nc_func("transpose" if node.attr == "T" else "adjoint", self._nc(self.ev(node.value, env, fn)))
-            raise NCError(f"attribute `{unparse(node)}`")
-        if isinstance(node, ast.UnaryOp) and isinstance(node.op, ast.USub):
-            return -self._nc(self.ev(node.operand, env, fn))
-        if isinstance(node, ast.BinOp):
-            a, b = self._nc(self.ev(node.left, env, fn)), self._nc(self.ev(node.right, env, fn))
-            if isinstance(node.op, (ast.Mult, ast.MatMult)):
-                return a * b
-            if isinstance(node.op, ast.Add):
-                return a + b
-            if isinstance(node.op, ast.Sub):
-                return a - b
-            if isinstance(node.op, ast.Pow) and isinstance(node.right, ast.UnaryOp) and unparse(node.right) == "-1":
-                return a.inv()
-            raise NCError(f"operator {type(node.op).__name__}")
-        if isinstance(node, ast.Call):
-            f = node.func
-            if isinstance(f, ast.Attribute) and isinstance(f.value, (ast.Name, ast.Call, ast.BinOp, ast.Attribute)):
-                # method on a matrix value
-                head = f.value
-                is_value = not (isinstance(head, ast.Name) and head.id not in env) and self.tree.resolve(fn.module, f, fn) is None
-                if is_value or (isinstance(head, ast.Name) and head.id in env):
-                    recv = self._nc(self.ev(head, env, fn))
-                    if f.attr == "inv" and not node.args:
-                        return recv.inv()
-                    if f.attr in {"doit", "simplify", "as_mutable", "as_immutable", "copy"}:
-                        return recv
-                    if f.attr in {"conjugate"}:
-                        return nc_func("conj", recv)
-                    if f.attr in {"T", "transpose"}:
-                        return nc_func("transpose", recv)
-                    raise NCError(f"matrix method .{f.attr}()")
-            callee = self.tree.resolve(fn.module, f, fn)
-            if callee in MATRIX_SOURCES:
-                m = NC.sym(MATRIX_SOURCES[callee](node))
-                if _is_diagonal_builder(self.tree, callee):
-                    self.diagonal.add(m.items()[0][1][0])
-                return m
-            if callee in {"sympy.Matrix", "sympy.ImmutableMatrix", "sympy.MutableDenseMatrix"} and len(node.args) == 3:
-                return self.elementwise(node, env, fn)
-            if callee == "sympy.eye":
-                return NC.eye()
-            if callee == "sympy.sqrt":
-                return nc_func("sqrt", self._nc(self.ev(node.args[0], env, fn)))
-            if callee == "sympy.conjugate":
-                return nc_func("conj", self._nc(self.ev(node.args[0], env, fn)))
-            target = self.tree.funcs.get(callee) if callee else None
-            if target is not None and getattr(self, "_depth", 0) < 4:
-                # helper of the package with a straight-line body: evaluate it on the argument terms
-                params = list(target.params)
-                if target.cls is not None and params[:1] in (["self"], ["cls"]):
-                    params = params[1:]
-                if any(isinstance(a, ast.Starred) for a in node.args) or len(node.args) > len(params):
-                    raise NCError(f"call `{unparse(node)[:60]}`: argument shape")
-                inner = {p: self.ev(a, env, fn) for p, a in zip(params, node.args)}
-                for kw in node.keywords:
-                    if kw.arg is None or kw.arg not in params:
-                        raise NCError(f"call `{unparse(node)[:60]}`: keyword {kw.arg}")
-                    inner[kw.arg] = self.ev(kw.value, env, fn)
-                defaults = target.node.args.defaults
-                for p_, d_ in zip(params[len(params) - len(defaults):], defaults):
-                    if p_ not in inner:
-                        if isinstance(d_, ast.Constant) and isinstance(d_.value, bool):
-                            inner[p_] = d_.value
-                        else:
-                            inner[p_] = self.ev(d_, {}, target)
-                self._depth = getattr(self, "_depth", 0) + 1
-                try:
-                    res = self._block(target.node.body, inner, target)
-                finally:
-                    self._depth -= 1
-                if res is None or not res:
-                    raise NCError(f"helper {target.qual} does not return a matrix term")
-                return res[0] if len(res) == 1 else list(res)  # several values: only a tuple assignment can take them
-            raise NCError(f"call `{unparse(node)[:60]}` outside the matrix-term grammar")
-        raise NCError(f"{type(node).__name__} `{unparse(node)[:50]}`")
+    def _arith(self, op, va, vb, sa, sb):  # noqa: C901, PLR0911, PLR0912
+        from .rules import ModelError
+
+        if isinstance(va, _Elem) or isinstance(vb, _Elem):
+            return self._elem_arith(op, va, vb), None
+        if op == "**":
+            return self._power(va, vb, sa)
+        if isinstance(va, RF) and isinstance(vb, RF):
+            if op == "@":
+                raise ModelError("`@` between scalars")
+            return {"+": lambda: va + vb, "-": lambda: va - vb, "*": lambda: va * vb, "/": lambda: va / vb}[op](), None
+        if isinstance(va, NC) or isinstance(vb, NC):
+            if not all(isinstance(x, (NC, RF)) for x in (va, vb)):
+                raise ModelError("a matrix term and an explicit matrix in one expression")
+            if op in {"+", "-"}:
+                if isinstance(va, RF) or isinstance(vb, RF):
+                    raise ModelError("adds a scalar and a matrix (SymPy raises)")
+                return (va + vb if op == "+" else va - vb), (sa or sb)
+            if op in {"*", "@"}:
+                if op == "@" and (isinstance(va, RF) or isinstance(vb, RF)):
+                    raise ModelError("`@` between a scalar and a matrix")
+                x, y = self._nc(va), self._nc(vb)
+                shape = sb if isinstance(va, RF) else sa if isinstance(vb, RF) else ((sa[0] if sa else None), (sb[1] if sb else None))
+                return x * y, shape
+            if op == "/":
+                if not isinstance(vb, RF):
+                    raise ModelError("division by a matrix")
+                return va * NC.scalar(RF.const(1) / vb), sa
+            raise ModelError(f"operator {op} on matrix terms")
+        # explicit matrices
+        from .dense import DenseError, Mat
+
+        try:
+            if op in {"+", "-"}:
+                if isinstance(va, Mat) != isinstance(vb, Mat):
+                    raise ModelError("adds a scalar and a matrix (SymPy raises)")
+                return (va + vb if op == "+" else va - vb), None
+            if op in {"*", "@"}:
+                if isinstance(va, Mat) and isinstance(vb, Mat):
+                    return va.matmul(vb), None
+                if op == "@":
+                    raise ModelError("`@` between a scalar and a matrix")
+                if isinstance(va, Mat):
+                    return va.map(lambda x: x * vb), None
+                return vb.map(lambda x: va * x), None
+            if op == "/":
+                if isinstance(vb, Mat):
+                    raise ModelError("division by a matrix")
+                return va.map(lambda x: x / vb), None
+        except DenseError as exc:
+            raise ModelError(str(exc)) from None
+        raise ModelError(f"operator {op} on explicit matrices")
 
     @staticmethod
     def _nc(v) -> NC:
+        return v if isinstance(v, NC) else NC.scalar(v)
+
+    def _power(self, va, vb, sa):
+        from .rules import ModelError
+
+        if not (isinstance(vb, RF) and vb.is_const()):
+            if isinstance(va, RF) and isinstance(vb, RF):
+                return va**vb, None
+            raise ModelError("power with a symbolic exponent")
+        e = vb.const_value()
+        if isinstance(va, RF):
+            return va**e, None
+        if e.denominator == 1:
+            e = int(e)
+            if isinstance(va, NC):
+                base = va if e >= 0 else va.inv()
+                out = NC.eye()
+                for _ in range(abs(e)):
+                    out = out * base
+                return out, sa
+            from .dense import DenseError, Mat
+
+            try:
+                base = va if e >= 0 else va.inv()
+                out = Mat.eye(va.n)
+                for _ in range(abs(e)):
+                    out = out.matmul(base)
+                return out, None
+            except DenseError as exc:
+                raise ModelError(str(exc)) from None
+        if e == Fraction(1, 2):
+            return self._func_value("sqrt", va), sa
+        raise ModelError(f"matrix power {e}")
+
+    def inverse(self, o):
+        from .rules import ModelError
+
+        v = self.value(o)
+        if isinstance(v, RF):
+            return self.arith("/", 1, o)
         if isinstance(v, NC):
-            return v
-        raise NCError(f"matrix term expected, got {type(v).__name__}")
+            return self.wrap(v.inv(), self.shape_of(o), self._subst_of(o))
+        if isinstance(v, _Elem):
+            raise ModelError("inverse of a matrix element")
+        from .dense import DenseError
+
+        try:
+            return self.wrap(v.inv(), subst=self._subst_of(o))
+        except DenseError as exc:
+            raise ModelError(str(exc)) from None
+
+    def func(self, name: str, o):
+        return self.wrap(self._func_value(name, self.value(o)), self.shape_of(o) if name in {"sqrt", "conj"} else _swap(self.shape_of(o)), self._subst_of(o))
+
+    def _func_value(self, name: str, v):
+        from .rules import ModelError
+
+        if isinstance(v, _Elem):
+            # f(m[i, j]) element by element is the element [i, j] of f(m): for the conjugate of any matrix, for the
+            # square root of a diagonal one (its zeros stay zeros)
+            if len(v.factors) == 1 and v.factors[0][3] == 1 and v.coeff.is_const() and v.coeff.const_value() == 1:
+                mat, r, c, _ = v.factors[0]
+                if name == "conj" or (name == "sqrt" and self.is_diagonal(mat)):
+                    return _Elem(v.coeff, ((nc_func(name, mat), r, c, 1),))
+            raise ModelError(f"{name} of a matrix element at generic indices")
+        if isinstance(v, RF):
+            if name == "sqrt":
+                return v ** Fraction(1, 2)
+            if name in {"conj", "adjoint"}:
+                return conj_rf(v)
+            return v  # transpose of a scalar
+        if isinstance(v, NC):
+            if name in {"transpose", "adjoint"} and self.is_diagonal(v):
+                return v if name == "transpose" else nc_func("conj", v)
+            if name == "sqrt" and not self.is_diagonal(v):
+                raise ModelError("square root of a matrix term that is not known to be diagonal")
+            return nc_func(name, v)
+        from .dense import Mat
+
+        if name == "transpose":
+            return v.T()
+        if name == "conj":
+            return v.map(conj_rf)
+        if name == "adjoint":
+            return v.T().map(conj_rf)
+        if name == "sqrt":
+            if any(not x.is_zero() for i, r in enumerate(v.rows) for j, x in enumerate(r) if i != j):
+                raise ModelError("square root of an explicit matrix that is not diagonal")
+            return Mat([[x ** Fraction(1, 2) if i == j else x for j, x in enumerate(r)] for i, r in enumerate(v.rows)])
+        raise ModelError(f"function {name}")
+
+    def applyfunc(self, f, o):
+        """``m.applyfunc(f)``: element-wise; on a diagonal nc term only for the functions that keep 0 at 0."""
+        from .rules import MRef, ModelError
+
+        v = self.value(o)
+        if f is self._identity:
+            return o
+        name = None
+        for n in ("sqrt", "conj"):
+            if f is self.ex.externals.get("sympy." + {"sqrt": "sqrt", "conj": "conjugate"}[n]):
+                name = n
+        if isinstance(v, (NC, RF)):
+            if name is None:
+                raise ModelError(f"applyfunc({f!r}) on a matrix term")
+            if isinstance(v, NC) and name == "sqrt" and not self.is_diagonal(v):
+                raise ModelError("element-wise square root of a matrix term that is not known to be diagonal")
+            return self.func(name, o)
+        from .dense import Mat
+
+        if isinstance(f, MRef):
+            raise ModelError(f"applyfunc({f.name}) has no model")
+        return self.wrap(Mat([[self.value(self.ex.apply(f, [self.wrap(x)], {})) for x in r] for r in v.rows]), subst=self._subst_of(o))
+
+    # ------------------------------------------------------------------ items
+    def _index(self, idx):
+        from .rules import MObj
+
+        if isinstance(idx, MObj) and "__value__" in idx.attrs:
+            v = self.value(idx)
+            if isinstance(v, RF) and v.is_const() and v.const_value().denominator == 1:
+                return int(v.const_value())
+        return idx
+
+    def getitem(self, o, idx):
+        from .rules import MObj, ModelError
+
+        v = self.value(o)
+        if isinstance(idx, tuple):
+            idx = tuple(self._index(i) for i in idx)
+        else:
+            idx = self._index(idx)
+        if isinstance(v, NC):
+            if isinstance(idx, tuple) and len(idx) == 2 and all(isinstance(i, MObj) and "index" in i.kinds for i in idx):
+                return self.wrap(_Elem(RF.const(1), ((v, idx[0], idx[1], 1),)))
+            raise ModelError("an element of a matrix term at indices that are not generic loop indices")
+        if isinstance(v, (RF, _Elem)):
+            raise ModelError("subscript of a scalar")
+        if isinstance(idx, int) and not isinstance(idx, bool):
+            n = v.n * v.m
+            if not -n <= idx < n:
+                raise ModelError("matrix index out of range")
+            idx = divmod(idx % n, v.m)
+        if isinstance(idx, tuple) and len(idx) == 2 and all(isinstance(i, int) and not isinstance(i, bool) for i in idx):
+            i, j = idx
+            if not (-v.n <= i < v.n and -v.m <= j < v.m):
+                raise ModelError("matrix index out of range")
+            return self.wrap(v.rows[i][j], subst=self._subst_of(o))
+        raise ModelError(f"matrix subscript {idx!r} has no model")
+
+    def elements(self, o) -> list:
+        """Iteration over a matrix: its elements, row by row (explicit matrices only)."""
+        from .rules import ModelError
+
+        v = self.value(o)
+        if self.mode != "dense" or isinstance(v, (RF, NC, _Elem)):
+            raise ModelError("iteration over a matrix term / a scalar")
+        return [self.wrap(x, subst=self._subst_of(o)) for r in v.rows for x in r]
+
+    def setitem(self, o, idx, val):
+        from .rules import MObj, ModelError
+
+        raw = o.attrs["__value__"]
+        if isinstance(idx, tuple):
+            idx = tuple(self._index(i) for i in idx)
+        if isinstance(raw, NC) and (raw == NC.eye() or not raw.terms) and self.shape_of(o) is not None:
+            # sp.eye(n) / a zero matrix written at [i, i] for every i: the diagonal is replaced as a whole
+            rows, cols = self.shape_of(o)
+            whole = (isinstance(idx, tuple) and len(idx) == 2 and idx[0] is idx[1] and isinstance(idx[0], MObj) and "index" in idx[0].kinds
+                     and idx[0].attrs.get("__dim__") is rows and rows is cols)
+            if not whole:
+                raise ModelError("item assignment into an identity matrix of generic size at other places than [i, i] for every i")
+            raw = o.attrs["__value__"] = _Builder(rows, cols)
+        if isinstance(raw, _Builder):
+            raw.entries.append((idx, val))
+            return None
+        if self.mode == "dense" and not isinstance(raw, (RF, NC, _Elem)) and isinstance(idx, tuple) and len(idx) == 2 and all(isinstance(i, int) and not isinstance(i, bool) for i in idx):
+            x = self.value(val)
+            if not isinstance(x, RF):
+                raise ModelError("a matrix stored into a matrix element")
+            raw.rows[idx[0]][idx[1]] = x
+            self.mutations.append(idx)
+            return None
+        raise ModelError("item assignment into this value has no model")
+
+    def _finalise(self, b: _Builder):
+        """nc domain: what a ``zeros(n, n)`` filled by item assignment is."""
+        from .rules import MObj, ModelError
+
+        if not b.entries:
+            return NC.make([])
+        if len(b.entries) != 1:
+            raise ModelError("a matrix filled at several places for a generic size")
+        idx, val = b.entries[0]
+        ok = (isinstance(idx, tuple) and len(idx) == 2 and idx[0] is idx[1] and isinstance(idx[0], MObj) and "index" in idx[0].kinds
+              and idx[0].attrs.get("__dim__") is b.rows and b.rows is b.cols)
+        if not ok:
+            raise ModelError("a matrix of generic size filled at other places than [i, i] for every i of its dimension")
+        return self._diagonal_of(self.value(val))
+
+    def _diagonal_of(self, v, g=None):
+        """The diagonal matrix whose i-th diagonal entry is the scalar ``v`` (which may depend on the generic i)."""
+        from .rules import ModelError
+
+        if isinstance(v, _Elem) and g is not None and all(r is g and c is g and self.is_diagonal(mat) for mat, r, c, _ in v.factors):
+            out = NC.scalar(v.coeff)  # a product of diagonal elements [i, i] of diagonal matrices: the product of the matrices
+            for mat, _, _, sign in sorted(v.factors, key=lambda t: repr(t[0].key())):
+                out = out * (mat if sign == 1 else mat.inv())
+            return out
+        if isinstance(v, RF):
+            if v.is_const():
+                return NC.scalar(v)  # c * identity
+            a = _single_atom(v)
+            if isinstance(a, tuple) and a and a[0] == "sym" and f"<{GENERIC}>" in a[1]:
+                m = NC.sym(a[1].replace(f"<{GENERIC}>", ""))
+                self.diagonal.add(m.items()[0][1][0])
+                return m
+        raise ModelError("diagonal entries that are not one symbol per index (`Symbol(f'rho{i}')`) or a constant")
+
+    def _elem_arith(self, op, va, vb):
+        from .rules import ModelError
+
+        def as_elem(v):
+            if isinstance(v, _Elem):
+                return v
+            if isinstance(v, RF):
+                return _Elem(v, ())
+            raise ModelError("a matrix element combined with a matrix")
+
+        x, y = as_elem(va), as_elem(vb)
+        if op == "*":
+            return _Elem(x.coeff * y.coeff, x.factors + y.factors)
+        if op == "/":
+            return _Elem(x.coeff / y.coeff, x.factors + tuple((m, r, c, -s) for m, r, c, s in y.factors))
+        raise ModelError(f"operator {op} on matrix elements at generic indices")
+
+    def _elementwise(self, n, m, f):
+        """``Matrix(n, m, f)``."""
+        from .rules import ModelError
+
+        if self.mode == "dense":
+            from .dense import Mat
+
+            if not (isinstance(n, int) and isinstance(m, int)):
+                raise ModelError("Matrix(n, m, f) with sizes that are not integers")
+            rows = []
+            for i in range(n):
+                row = []
+                for j in range(m):
+                    x = self.value(self.ex.apply(f, [i, j], {}))
+                    if not isinstance(x, RF):
+                        raise ModelError("Matrix(n, m, f): f returns a matrix")
+                    row.append(x)
+                rows.append(row)
+            return self.wrap(Mat(rows))
+        if n is not m:
+            raise ModelError("element-wise matrix of generic size that is not square")
+        gi, gj = self._generic(n), self._generic(n)
+        try:
+            v = self.value(self.ex.apply(f, [gi, gj], {}))
+        except ModelError as exc:
+            if "generic index cannot be decided" not in str(exc):
+                raise
+            # the definition distinguishes i == j from i != j: a diagonal matrix if every off-diagonal element is 0
+            self._unequal.add(frozenset((id(gi), id(gj))))
+            off = self.value(self.ex.apply(f, [gi, gj], {}))
+            if not (isinstance(off, RF) and off.is_zero()):
+                raise ModelError("element-wise matrix of generic size with different formulas on and off the diagonal") from None
+            return self.wrap(self._diagonal_of(self.value(self.ex.apply(f, [gi, gi], {})), gi), (n, m))
+        if isinstance(v, RF):
+            v = _Elem(v, ())
+        if not isinstance(v, _Elem):
+            raise ModelError("element-wise matrix whose element is a matrix")
+        left, right, full = [], [], []
+        for mat, r, c, sign in v.factors:
+            if (r, c) == (gi, gj):
+                if sign != 1:
+                    raise ModelError("division by a full matrix element")
+                full.append(mat)
+            elif r is c and (r is gi or r is gj):
+                if not self.is_diagonal(mat):
+                    raise ModelError("element [k, k] of a matrix that is not known to be diagonal")
+                (left if r is gi else right).append(mat if sign == 1 else mat.inv())
+            else:
+                raise ModelError("an element that is neither [i, j] nor a diagonal element [i, i] / [j, j]")
+        if len(full) != 1:
+            raise ModelError(f"element-wise product with {len(full)} full-matrix factors")
+        out = NC.scalar(v.coeff)
+        for x in sorted(left, key=lambda t: repr(t.key())):
+            out = out * x
+        out = out * full[0]
+        for x in sorted(right, key=lambda t: repr(t.key())):
+            out = out * x
+        return self.wrap(out, (n, m))
+
+    def _generic(self, dim):
+        from .rules import MObj, ModelError
+
+        g = MObj(GENERIC, kinds={"index"}, open=True)
+
+        def eq(a, k):
+            if a[0] is g:
+                return True
+            if frozenset((id(g), id(a[0]))) in self._unequal:
+                return False  # the off-diagonal case of an element-wise definition (see _elementwise)
+            raise ModelError("comparison of a generic index cannot be decided")
+
+        g.attrs.update({"__dim__": dim, "__eq__": eq, "__key__": ("index", id(g)), "__str__": lambda a, k: f"<{GENERIC}>"})
+        g.kinds |= {"int"}
+        return g
+
+    # ------------------------------------------------------------------ substitution (recorded)
+    def substitute(self, o, a, k):
+        from .rules import ModelError
+
+        if self.mode == "nc":
+            return o  # replacing symbols does not change the matrix algebra
+        pairs: list = []
+        if len(a) == 1 and isinstance(a[0], dict):
+            items = list(a[0].items())
+        elif len(a) == 2:
+            items = [(a[0], a[1])]
+        elif len(a) == 1 and isinstance(a[0], (list, tuple)):
+            items = [tuple(p) for p in a[0]]
+        else:
+            raise ModelError("xreplace / subs with arguments that have no model")
+        for key, val in items:
+            kv = self.value(key)
+            atom = _single_atom(kv) if isinstance(kv, RF) else None
+            if atom is None:
+                raise ModelError("a substituted key that is not a symbol")
+            pairs.append((atom, self.value(val)))
+        return self.wrap(self.value(o), self.shape_of(o), (*self._subst_of(o), *pairs))
+
+    def substitutions(self, r) -> list:
+        """[(atom, value)] recorded on a returned value, in the order of application."""
+        return list(self._subst_of(r))
+
+    # ------------------------------------------------------------------ externals
+    def _intercept(self, fn: FuncInfo, args: list, kwargs: dict):
+        from .rules import ModelError
+
+        if fn.qual == self.SYMBOL_MATRIX:
+            bound = self.ex._bind(fn.node, args, kwargs, fn)
+            vals = [bound[p] for p in fn.params[:3]]
+            if len(vals) != 3 or not isinstance(vals[0], str):
+                raise ModelError("create_symbol_matrix: the name is not a string constant")
+            return True, self._symbol_matrix(*vals)
+        if fn.cls is not None and fn.outer is None and any(unparse(d) == "classmethod" for d in fn.node.decorator_list):
+            from .rules import MObj
+
+            first = [x.arg for x in [*fn.node.args.posonlyargs, *fn.node.args.args]][:1]
+            if not (args and isinstance(args[0], MObj) and "class" in args[0].kinds) and not (first and first[0] in kwargs):
+                # `SomeClass.make(...)` written with the class name: the class object is the first argument
+                return True, self.ex.call_function(fn, [self.class_object(fn.cls.qual), *args], kwargs)
+        if fn.name in self.opaque and fn.cls is not None:
+            bound = self.ex._bind(fn.node, args, kwargs, fn)
+            atom = ("param", fn.qual, tuple(sorted((n, self.key(v)) for n, v in bound.items())))
+            self.params[atom] = (fn.qual, bound)
+            return True, self.wrap(RF.atom(atom))
+        return False, None
+
+    def _symbol_matrix(self, name: str, rows, cols):
+        from .rules import ModelError
+
+        if self.mode == "nc":
+            v = self.wrap(NC.sym(name), (rows, cols))
+        else:
+            from .dense import Mat
+
+            if not (isinstance(rows, int) and isinstance(cols, int)):
+                raise ModelError("create_symbol_matrix with sizes that are not integers")
+            v = self.wrap(Mat.symbols(name, rows, cols))
+        self.symbol_matrices.setdefault(name, []).append(v)
+        return v
+
+    def _record_ctor(self, c):
+        """Constructor model of a NamedTuple / dataclass / attrs class of the package (helper objects that carry
+        several values): an object with the fields as attributes; a NamedTuple also iterates and indexes."""
+        from .rules import MObj, ModelError, ModelRaise
+
+        named = any(b.split(".")[-1] == "NamedTuple" for b in c.bases)
+        data = any(d.split(".")[-1].split("(")[0] in {"dataclass", "define", "frozen", "s", "attrs", "mutable"} for d, _ in c.decorators)
+        if not (named or data):
+            return None
+        fields = [(st.target.id, st.value) for st in c.node.body if isinstance(st, ast.AnnAssign) and isinstance(st.target, ast.Name)]
+
+        def ctor(a, k):
+            if len(a) > len(fields):
+                raise ModelRaise("TypeError", f"{c.name}() takes {len(fields)} arguments")
+            vals = dict(zip([n for n, _ in fields], a))
+            for n, v in k.items():
+                if n in vals or n not in {f for f, _ in fields}:
+                    raise ModelRaise("TypeError", f"{c.name}(): argument {n}")
+                vals[n] = v
+            for n, d in fields:
+                if n not in vals:
+                    if d is None:
+                        raise ModelRaise("TypeError", f"{c.name}(): missing {n}")
+                    vals[n] = self.ex.ev(d, {}, None, 0)
+            o = MObj(f"{c.name}(...)", {n: vals[n] for n, _ in fields}, kinds={c.qual, c.name}, open=False)
+            order = [vals[n] for n, _ in fields]
+            if named:
+                def getitem(x, _k):
+                    if isinstance(x[0], int) and not isinstance(x[0], bool) and -len(order) <= x[0] < len(order):
+                        return order[x[0]]
+                    raise ModelError(f"subscript {x[0]!r} of a named tuple")
+
+                o.attrs.update({"__iter__": lambda x, _k: list(order), "__getitem__": getitem, "__len__": lambda x, _k: len(order),
+                                "_asdict": lambda x, _k: {n: vals[n] for n, _ in fields},
+                                "_replace": lambda x, kk: ctor([], {**{n: vals[n] for n, _ in fields}, **kk})})
+            from .rules import _FuncRef
+
+            for name, m in c.methods.items():
+                decos = {unparse(d) for d in m.node.decorator_list}
+                if "staticmethod" in decos:
+                    o.attrs.setdefault(name, _FuncRef(m))
+                elif "property" in decos or "classmethod" in decos:
+                    continue
+                else:
+                    o.attrs.setdefault(name, (lambda m_: lambda x, kk: self.ex.call_function(m_, [o, *x], kk))(m))
+            o.attrs["__key__"] = ("record", c.qual, tuple(self.key(v) for v in order))
+            o.attrs["__fields__"] = [n for n, _ in fields]
+            return o
+
+        return ctor
+
+    def _externals(self) -> dict:  # noqa: C901
+        from .rules import MObj, ModelError, ModelRaise
+
+        one = lambda f: (lambda a, k: f(a[0]))  # noqa: E731
+
+        def eye(a, k):
+            n = a[0]
+            if len(a) > 1 and a[1] is not n and a[1] != n:
+                raise ModelError("sp.eye(n, m) with n != m")
+            if self.mode == "nc":
+                return self.wrap(NC.eye(), (n, n))
+            from .dense import Mat
+
+            if not isinstance(n, int):
+                raise ModelError("sp.eye of a size that is not an integer")
+            return self.wrap(Mat.eye(n))
+
+        def zeros(a, k):
+            n = a[0]
+            m = a[1] if len(a) > 1 else n
+            if self.mode == "nc":
+                return self.wrap(_Builder(n, m), (n, m))
+            from .dense import Mat
+
+            if not (isinstance(n, int) and isinstance(m, int)):
+                raise ModelError("sp.zeros of a size that is not an integer")
+            return self.wrap(Mat([[RF.const(0) for _ in range(m)] for _ in range(n)]))
+
+        def diag(a, k):
+            items = list(a)
+            if len(items) == 1 and isinstance(items[0], (list, tuple)):
+                items = list(items[0])
+            if self.mode == "nc":
+                if len(items) != 1:
+                    raise ModelError("sp.diag of explicitly listed entries for a generic size")
+                return self.wrap(self._diagonal_of(self.value(items[0])))
+            from .dense import Mat
+
+            vals = [self.value(x) for x in items]
+            if not all(isinstance(x, RF) for x in vals):
+                raise ModelError("sp.diag of blocks")
+            n = len(vals)
+            return self.wrap(Mat([[vals[i] if i == j else RF.const(0) for j in range(n)] for i in range(n)]))
+
+        def matrix(a, k):
+            if len(a) == 3:
+                return self._elementwise(a[0], a[1], a[2])
+            if len(a) == 1 and isinstance(a[0], MObj) and "__value__" in a[0].attrs and not isinstance(self.value(a[0]), (RF, _Elem)):
+                return a[0]  # Matrix(m): a copy
+            if len(a) == 1 and isinstance(a[0], (list, tuple)) and self.mode == "dense":
+                from .dense import Mat
+
+                rows = [list(r) if isinstance(r, (list, tuple)) else [r] for r in a[0]]
+                vals = [[self.value(x) for x in r] for r in rows]
+                if vals and all(len(r) == len(vals[0]) for r in vals) and all(isinstance(x, RF) for r in vals for x in r):
+                    return self.wrap(Mat(vals))
+            raise ModelError("this form of sp.Matrix(...) has no model")
+
+        def symbol(a, k):
+            if not (a and isinstance(a[0], str)):
+                raise ModelError("sp.Symbol with a name that is not a string")
+            ass = tuple(sorted((n, v) for n, v in k.items()))
+            atom = ("sym", a[0], ass)
+            self.symbols[atom] = (a[0], dict(k))
+            self.constructed.append(("Symbol", a[0], dict(k)))
+            return self.wrap(RF.atom(atom))
+
+        def indexed_base(a, k):
+            if not (a and isinstance(a[0], str)):
+                raise ModelError("sp.IndexedBase with a name that is not a string")
+            ass = tuple(sorted((n, v) for n, v in k.items()))
+            o = MObj(f"IndexedBase({a[0]})", kinds={"indexedbase", "sympy"}, open=True)
+            self.constructed.append(("IndexedBase", a[0], dict(k)))
+
+            def getitem(x, _k):
+                idx = x[0] if isinstance(x[0], tuple) else (x[0],)
+                return self.wrap(RF.atom(("indexed", a[0], ass, tuple(self.key(i) for i in idx))))
+
+            o.attrs.update({"__getitem__": getitem, "__key__": ("indexedbase", a[0], ass), "name": a[0]})
+            return o
+
+        def rational(a, k):
+            vals = [self.value(x) for x in a]
+            if len(vals) == 1:
+                return self.wrap(vals[0])
+            if len(vals) == 2:
+                return self.wrap(vals[0] / vals[1])
+            raise ModelError("sp.Rational(...)")
+
+        def rng(a, k):
+            if all(isinstance(x, int) and not isinstance(x, bool) for x in a):
+                return list(range(*a))
+            if len(a) == 1 and isinstance(a[0], MObj) and "dim" in a[0].kinds:
+                return [self._generic(a[0])]
+            raise ModelError("range over a bound that is neither an integer nor a size")
+
+        def total(a, k):
+            items = self.ex.iterate(a[0])
+            acc = a[1] if len(a) > 1 else k.get("start", 0)
+            for x in items:
+                acc = self._py_or_model("+", acc, x)
+            return acc
+
+        def prod(a, k):
+            acc = k.get("start", 1)
+            for x in self.ex.iterate(a[0]):
+                acc = self._py_or_model("*", acc, x)
+            return acc
+
+        def reduce_(a, k):
+            items = self.ex.iterate(a[1])
+            if len(a) > 2:
+                acc = a[2]
+            elif items:
+                acc, items = items[0], items[1:]
+            else:
+                raise ModelRaise("TypeError", "reduce() of empty iterable with no initial value")
+            for x in items:
+                acc = self.ex.apply(a[0], [acc, x], {})
+            return acc
+
+        def partial(a, k):
+            f, pre, prek = a[0], list(a[1:]), dict(k)
+            return lambda a2, k2: self.ex.apply(f, [*pre, *a2], {**prek, **k2})
+
+        def product(a, k):
+            import itertools
+
+            repeat = k.get("repeat", 1)
+            if not isinstance(repeat, int):
+                raise ModelError("itertools.product(repeat=...) that is not an integer")
+            return [tuple(t) for t in itertools.product(*[self.ex.iterate(x) for x in a], repeat=repeat)]
+
+        def combinatoric(name):
+            def run(a, k):
+                import itertools
+
+                r = a[1] if len(a) > 1 else k.get("r")
+                if r is not None and not isinstance(r, int):
+                    raise ModelError(f"itertools.{name} with a length that is not an integer")
+                return [tuple(t) for t in getattr(itertools, name)(self.ex.iterate(a[0]), *([] if r is None else [r]))]
+
+            return run
+
+        def op(sym_):
+            return lambda a, k: self._py_or_model(sym_, a[0], a[1])
+
+        def itemgetter(a, k):
+            def get(x, _k):
+                vals = [self.ex.ev(ast.Subscript(value=ast.Name(id="__o", ctx=ast.Load()), slice=ast.Constant(value=i), ctx=ast.Load()), {"__o": x[0]}, None, 0) for i in a]
+                return vals[0] if len(vals) == 1 else tuple(vals)
+
+            return get
+
+        def attrgetter(a, k):
+            def get(x, _k):
+                vals = []
+                for path in a:
+                    v = x[0]
+                    for part in path.split("."):
+                        v = self.ex.getattr(v, part)
+                    vals.append(v)
+                return vals[0] if len(vals) == 1 else tuple(vals)
+
+            return get
+
+        def symbols(a, k):
+            """sp.symbols("rho:3") / sp.symbols(f"rho:{n}") / sp.symbols("a b")."""
+            import re
+
+            from .terms import expand_symbols
+
+            if not (a and isinstance(a[0], str)):
+                raise ModelError("sp.symbols with names that are not a string")
+            kw = {n: v for n, v in k.items() if n not in {"cls", "seq"}}
+            if len(kw) != len(k) and k.get("cls") is not None:
+                raise ModelError("sp.symbols(cls=...) has no model")
+            generic = re.fullmatch(r"(\w*?):<([^<>]+)>", a[0])
+            if generic:
+                if self.mode != "nc":
+                    raise ModelError("sp.symbols over a symbolic range")
+                return (symbol([f"{generic.group(1)}<{GENERIC}>"], kw),)
+            try:
+                names = expand_symbols(a[0])
+            except Exception as exc:  # noqa: BLE001
+                raise ModelError(f"sp.symbols({a[0]!r}): {exc}") from None
+            vals = tuple(symbol([n], kw) for n in names)
+            return vals if len(vals) != 1 or k.get("seq") or a[0].rstrip().endswith(",") else vals[0]
+
+        unit = self.wrap(RF.atom("I"))
+        ext = {
+            "sympy.I": unit, "sympy.eye": eye, "sympy.zeros": zeros, "sympy.diag": diag,
+            "sympy.Matrix": matrix, "sympy.ImmutableMatrix": matrix, "sympy.MutableDenseMatrix": matrix, "sympy.ImmutableDenseMatrix": matrix, "sympy.MutableMatrix": matrix,
+            "sympy.sqrt": one(lambda x: self.func("sqrt", x)), "sympy.conjugate": one(lambda x: self.func("conj", x)),
+            "sympy.transpose": one(lambda x: self.func("transpose", x)), "sympy.adjoint": one(lambda x: self.func("adjoint", x)),
+            "sympy.sympify": one(lambda x: x), "sympy.S": one(lambda x: x),
+            "sympy.Matrix.eye": eye, "sympy.Matrix.zeros": zeros, "sympy.Matrix.diag": diag, "sympy.MutableDenseMatrix.eye": eye, "sympy.MutableDenseMatrix.zeros": zeros,
+            "sympy.symbols": symbols,
+            "sympy.Symbol": symbol, "sympy.IndexedBase": indexed_base, "sympy.Rational": rational, "sympy.Integer": rational, "sympy.Float": rational,
+            "range": rng, "sum": total, "math.prod": prod, "functools.reduce": reduce_, "functools.partial": partial,
+            "itertools.product": product, "itertools.permutations": combinatoric("permutations"), "itertools.combinations": combinatoric("combinations"),
+            "itertools.combinations_with_replacement": combinatoric("combinations_with_replacement"),
+            "itertools.chain": lambda a, k: [x for it in a for x in self.ex.iterate(it)],
+            "itertools.chain.from_iterable": lambda a, k: [x for it in self.ex.iterate(a[0]) for x in self.ex.iterate(it)],
+            "itertools.starmap": lambda a, k: [self.ex.apply(a[0], list(self.ex.iterate(t)), {}) for t in self.ex.iterate(a[1])],
+            "itertools.repeat": lambda a, k: [a[0]] * a[1] if len(a) == 2 and isinstance(a[1], int) else _no_model("itertools.repeat without a count"),
+            "operator.add": op("+"), "operator.sub": op("-"), "operator.mul": op("*"), "operator.matmul": op("@"), "operator.truediv": op("/"), "operator.pow": op("**"),
+            "operator.neg": lambda a, k: self._py_or_model("*", -1, a[0]),
+            "operator.itemgetter": itemgetter, "operator.attrgetter": attrgetter,
+            "typing.cast": lambda a, k: a[1], "copy.copy": one(lambda x: x), "copy.deepcopy": one(lambda x: x),
+        }
+        for name in list(ext):
+            if name.startswith("operator."):
+                ext["_" + name] = ext[name]
+        # rewriting functions: the value (as a function of the symbols) is unchanged
+        self._identity = one(lambda x: x)
+        for name in ("simplify", "expand", "together", "cancel", "factor", "radsimp", "ratsimp", "powsimp", "nsimplify", "expand_complex", "signsimp"):
+            ext["sympy." + name] = self._identity
+        return ext
+
+    def _py_or_model(self, op: str, a, b):
+        from .rules import MObj
+
+        if isinstance(a, MObj) or isinstance(b, MObj):
+            return self.arith(op, a, b)
+        node = {"+": ast.Add, "-": ast.Sub, "*": ast.Mult, "@": ast.MatMult, "/": ast.Div, "**": ast.Pow}[op]()
+        if op in {"/", "**"}:
+            return self.arith(op, a, b)
+        return self.ex.binop(node, a, b, ast.Constant(value=None))
+
+
+def _no_model(what: str):
+    from .rules import ModelError
+
+    raise ModelError(what)
+
+
+def _swap(shape):
+    return None if shape is None else (shape[1], shape[0])
+
+
+def _single_atom(v: RF):
+    """The atom if ``v`` is exactly one atom with coefficient 1."""
+    r = v.normalized()
+    if r.d.is_const() and r.d.const_value() == 1 and len(r.n.t) == 1:
+        ((m, c),) = r.n.t.items()
+        if c == 1 and len(m) == 1 and m[0][1] == 1:
+            return m[0][0]
+    return None
+
+
+class NCEval:
+    """A package function evaluated on non-commutative matrix terms for a generic number of channels.
+
+    ``run(fn, flags)``: boolean parameters are bound by ``flags``, ``cls`` to the class object, every other
+    parameter is a symbolic size.  Returns the list of returned values.  ``special`` afterwards holds the
+    tests ``<size> == k`` that were met (each decided as False, i.e. the generic path was taken)."""
+
+    def __init__(self, tree: Tree) -> None:
+        self.tree = tree
+        self.assume: dict = {}
+        self.special: dict = {}
+        self.model: MatrixModel | None = None
+
+    def run(self, fn: FuncInfo, flags: dict, extra: dict | None = None) -> list:
+        model = self.model = MatrixModel(self.tree, "nc", assume=self.assume)
+        kwargs = dict(flags)
+        kwargs.update(extra or {})
+        args: list = []
+        a = fn.node.args
+        for i, p in enumerate([x.arg for x in [*a.posonlyargs, *a.args, *a.kwonlyargs]]):
+            if p in kwargs:
+                continue
+            if i == 0 and p in {"cls", "self"} and fn.cls is not None:
+                kwargs[p] = model.class_object(fn.cls.qual)
+            elif p not in _defaults(fn):
+                kwargs[p] = model.dim(p)
+        res = model.call(fn, args, kwargs)
+        self.special.update(model.special)
+        return model.results(res)
+
+
+def _defaults(fn: FuncInfo) -> set:
+    a = fn.node.args
+    pos = [x.arg for x in [*a.posonlyargs, *a.args]]
+    out = set(pos[len(pos) - len(a.defaults):]) if a.defaults else set()
+    out |= {k.arg for k, d in zip(a.kwonlyargs, a.kw_defaults) if d is not None}
+    return out
